@@ -397,6 +397,14 @@ impl<T: CellT + std::hash::Hash> Machine<T> {
                 }
                 res_unit()
             }
+            "clone_from" => {
+                let snc = get_u64(a, "nc") as usize;
+                let snr = get_u64(a, "nr") as usize;
+                let src: TooDee<T> = TooDee::from_vec(snc, snr, supplied);
+                arr.clone_from(&src);
+                drop(src);
+                res_unit()
+            }
             "clone" if self.in_fault => {
                 let c = (*arr).clone();
                 let ids = origins_of(c.data());
